@@ -111,7 +111,8 @@ def private_members(tree):
                         and t.id not in out[""]["globals"]:
                     out[""]["globals"].append(t.id)
         elif isinstance(st, ast.ClassDef):
-            d = {"methods": [], "fields": [], "arity": {}, "callers": {}}
+            d = {"methods": [], "fields": [], "arity": {}, "callers": {},
+                 "consts": []}
             for b in st.body:
                 if isinstance(b, (ast.FunctionDef, ast.AsyncFunctionDef)):
                     for n in ast.walk(b):
@@ -144,6 +145,9 @@ def private_members(tree):
                                     d["fields"].append(x.attr)
                 elif isinstance(b, ast.Assign):
                     for t in b.targets:
+                        if isinstance(t, ast.Name) and _is_private(t.id) \
+                                and t.id not in d["consts"]:
+                            d["consts"].append(t.id)
                         if isinstance(t, ast.Name) and _is_private(t.id) \
                                 and t.id not in d["fields"]:
                             d["fields"].append(t.id)
@@ -246,7 +250,9 @@ class Model:
                 if want is None:
                     continue
                 have = set(live.get(cname, {}).get("fields", []))
-                gone = [f for f in want.get("fields", []) if f not in have]
+                # class-level constants only (instance fields are not
+                # candidates for a move to module level)
+                gone = [f for f in want.get("consts", []) if f not in have]
                 fresh = [g for g in live[""]["globals"]
                          if g not in want_globals and g not in vocab
                          and g not in known]
@@ -408,7 +414,7 @@ class Model:
                 if want is None:
                     continue
                 for kind, names in kinds.items():
-                    if kind in ("arity", "callers"):
+                    if kind in ("arity", "callers", "consts"):
                         continue
                     old = want.get(kind, [])
                     if old == names:
